@@ -42,7 +42,8 @@ REAL = ["aiomysensors.persistence.Persistence.save/load", "NodeSchema/ChildSchem
 STUB = ["event loop + thread pool (SimLoop.run_in_executor)", "OS file system (SimDisk/SimRawIO)"]
 ASSUMPTIONS = ["SimDisk returns what was written"]
 REQUIRED_PROBES = ["battery_out_of_range_on_wire", "non_ascii", "negative_type", "huge_int", "short_writes",
-                   "legacy_layout", "direct_registry", "history_registry", "empty_registry", "sleeping_node"]
+                   "legacy_layout", "direct_registry", "history_registry", "empty_registry", "sleeping_node",
+                   "load_explicit_path"]
 SHRINK_LISTS = ("ops",)
 
 
@@ -92,6 +93,7 @@ def gen(seed: int, i: int, tier: str) -> dict:
         ops = [["line", ln] for ln in lines]
     return {"cfg": {"pin": proto}, "kind": kind, "ops": ops,
             "write_limit": rng.choice([None, None, 1, 7, 64, 1000]), "read_limit": rng.choice([None, None, 1, 13]),
+            "explicit_path": rng.random() < 0.2,
             "tapes": {"exec.lat": [rng.choice([0, 0, 1, 5]) for _ in range(rng.randint(0, 8))]}}
 
 
@@ -139,7 +141,12 @@ def run(scn) -> RunResult:
                     res.probes["short_writes"] += 1
                 image = pw.disk.image(PATH)
                 loaded: dict = {}
-                kind, val = pw.run(Persistence(loaded, PATH).load())
+                if scn.get("explicit_path"):
+                    # import of another file through the documented path argument
+                    res.probes["load_explicit_path"] += 1
+                    kind, val = pw.run(Persistence(loaded, "/sim/own-file.json").load(PATH))
+                else:
+                    kind, val = pw.run(Persistence(loaded, PATH).load())
                 res.ops += 1
                 if kind != "ok":
                     cls = type(val).__name__ if val is not None else ""
